@@ -618,6 +618,7 @@ SUBPART_IDENT = {
     ("BTreeMap", "values"), ("BTreeMap", "iter_mut"), ("BTreeMap", "values_mut"),
     ("Entry", "or_insert"), ("Entry", "or_default"), ("Clone", "clone"),
     ("Try", "branch"), ("Option", "ok_or"), ("Result", "ok"), ("Result", "err"),
+    ("ReadColumns", "iter"), ("ReadSlice", "iter"), ("FlatStack", "iter"),
 }
 SUBPART_ELEM = {
     ("Iterator", "next"), ("Index", "index"), ("IndexMut", "index_mut"), ("slice", "get"),
